@@ -1,6 +1,6 @@
 // hC16: correspondence harness for property C16 (a scenario means the same in HCL and in YAML).
 //
-// Case line:   scn <tree>
+// Case line:   scn <tree>          (and `loc <blocks> <body>`: the locals stage, see locals.go)
 // <tree> is the scenario description as a generic value tree with the DOCUMENTED keys
 // (variable_sources/requests/calls/scenarios, name, type, file, ..., see docs/eng/scenario-*.md), in the token
 // syntax of harness/internal/a16schema/value.go.  The harness prints it as YAML and as HCL (plain, and a variant
@@ -325,17 +325,20 @@ func hq(x string) string {
 type hclCtx struct {
 	useLocals bool
 	r         *vh.Rand
-	locals    []string // rendered attributes of the locals blocks (split over both)
-	first     []string // decoy definitions: first block only
-	second    []string // the definitions that shadow the decoys: second block only
+	blocks    [][]string // rendered attributes of the locals blocks, in file order (2..5 blocks)
 	n         int
 	usedFns   map[string]int
 }
 
 func (c *hclCtx) local(expr string) string {
+	if c.blocks == nil {
+		c.blocks = make([][]string, 2+c.r.Intn(4))
+	}
+	nb := len(c.blocks)
 	c.n++
 	name := "l" + strconv.Itoa(c.n)
-	if c.r.Intn(3) == 0 {
+	switch c.r.Intn(4) {
+	case 0:
 		// the same name is defined in an earlier locals block with another value: the later block wins
 		decoy := `"decoy"`
 		switch {
@@ -344,10 +347,19 @@ func (c *hclCtx) local(expr string) string {
 		case strings.HasPrefix(expr, "{"):
 			decoy = `{decoy = "decoy"}`
 		}
-		c.first = append(c.first, name+" = "+decoy)
-		c.second = append(c.second, name+" = "+expr)
-	} else {
-		c.locals = append(c.locals, name+" = "+expr)
+		at := 1 + c.r.Intn(nb-1)
+		early := c.r.Intn(at)
+		c.blocks[early] = append(c.blocks[early], name+" = "+decoy)
+		c.blocks[at] = append(c.blocks[at], name+" = "+expr)
+	case 1:
+		// defined under another name in some block, and handed on by a block any number of blocks below it
+		at := c.r.Intn(nb - 1)
+		below := at + 1 + c.r.Intn(nb-1-at)
+		c.blocks[at] = append(c.blocks[at], name+"_def = "+expr)
+		c.blocks[below] = append(c.blocks[below], name+" = local."+name+"_def")
+	default:
+		at := c.r.Intn(nb)
+		c.blocks[at] = append(c.blocks[at], name+" = "+expr)
 	}
 	return "local." + name
 }
@@ -677,19 +689,16 @@ func toHCL(v *s.V, useLocals bool, r *vh.Rand) string {
 		}
 		b.WriteString("}\n")
 	}
-	if len(c.locals)+len(c.first) > 0 {
-		// two locals blocks: the second may refer to the first and overrides its names
-		h := len(c.locals) / 2
+	if c.blocks != nil {
+		// several locals blocks: a block may refer to any block above it and overrides the names of those blocks
 		var l strings.Builder
-		l.WriteString("locals {\n")
-		for _, a := range append(append([]string{}, c.locals[:h]...), c.first...) {
-			l.WriteString("  " + a + "\n")
+		for _, blk := range c.blocks {
+			l.WriteString("locals {\n")
+			for _, a := range blk {
+				l.WriteString("  " + a + "\n")
+			}
+			l.WriteString("}\n")
 		}
-		l.WriteString("}\nlocals {\n")
-		for _, a := range append(append([]string{}, c.locals[h:]...), c.second...) {
-			l.WriteString("  " + a + "\n")
-		}
-		l.WriteString("}\n")
 		return l.String() + b.String()
 	}
 	return b.String()
@@ -889,6 +898,10 @@ func gen(r *vh.Rand, tier string) []string {
 	for i := 0; i < n; i++ {
 		out = append(out, "scn "+genDesc(r, 1+i%4).Token())
 	}
+	// the locals stage: programs over 1..6 locals blocks (locals.go)
+	for i := 0; i < n*2/3; i++ {
+		out = append(out, genLoc(r))
+	}
 	return out
 }
 
@@ -969,6 +982,10 @@ func run(cases []string) []string {
 	}()
 	for i, c := range cases {
 		f := strings.Split(c, " ")
+		if f[0] == "loc" {
+			out = append(out, rn.runLoc(f))
+			continue
+		}
 		if len(f) != 2 || f[0] != "scn" {
 			out = append(out, "badcase")
 			continue
